@@ -5,6 +5,7 @@
 -/
 import PS.Proofs.ParseType
 import PS.Proofs.ParseProg
+import PS.Proofs.ParseTypeChars
 namespace PS.C15
 open PS TyExpr
 
@@ -48,6 +49,55 @@ example : exE.wf = true ∧ autoTypeToks exE.toks = .ok exE.denote ∧
     render (fun k => if k % 3 = 0 then 1 else 0) exE
       = " 'a list-> ('a-> 'b[int |bool] )->'b [int| bool]optional ".toList :=
   ⟨by decide, C15_type_tokens _ (by decide), by decide +kernel⟩
+
+/-- **Character level, tokenizer.**  For every well-formed expression `e` of the notation and
+    EVERY spacing `sp : Nat → Nat` (any number of blanks, including none, before and after every
+    token, after `(` and `[`, before `)` and `]`, at both ends of the text; `render` itself adds
+    the one blank the notation requires between two adjacent words, e.g. `int list`), the
+    character-level tokenizer of `auto_type` (`strip`, `__matching__`, `__next_token__`, the
+    recursive calls on the text enclosed by parentheses / brackets) cuts the text `render sp e`
+    into exactly the token tree of `e`.  No spacing is excluded: an operator is always followed
+    by the start of an operand (a letter, `'` or `(`, where the infix token stops), never by
+    `|`, `[` or another operator. -/
+theorem C15_type_tokenize (sp : Spacing) (e : TyExpr) (hwf : e.wf = true) :
+    tokenize ((render sp e).length + 1) (render sp e) = .ok e.toks :=
+  tokenize_render sp e hwf
+
+/-- **Character level, end to end.**  `auto_type` (the model `autoTypeText`, with the fuel the
+    driver runs it with) applied to the text of `e` under any spacing returns exactly `⟦e⟧`. -/
+theorem C15_type (sp : Spacing) (e : TyExpr) (hwf : e.wf = true) :
+    autoTypeText (render sp e) = .ok e.denote := by
+  unfold autoTypeText
+  rw [autoType_of_tokenize _ _ _ (C15_type_tokenize sp e hwf)]
+  exact C15_type_tokens e hwf
+
+/-- the character-level machine agrees with the token-level machine on every text that the
+    tokenizer accepts (also outside the notation) -/
+theorem C15_type_machine (d : Nat) (el : Str) (ts : List Tok) (h : tokenize d el = .ok ts) :
+    autoType d el = autoTypeToks ts :=
+  autoType_of_tokenize d el ts h
+
+-- non-vacuity: the nested type above written with odd spacing (no blank around `->`, blanks
+-- inside the parentheses and brackets, between `'b` and `[`, at both ends)
+example : autoTypeText " 'a list-> ('a-> 'b[int |bool] )->'b [int| bool]optional ".toList
+    = .ok exE.denote := by
+  have h := C15_type (fun k => if k % 3 = 0 then 1 else 0) exE (by decide)
+  have e : render (fun k => if k % 3 = 0 then 1 else 0) exE
+      = " 'a list-> ('a-> 'b[int |bool] )->'b [int| bool]optional ".toList := by decide +kernel
+  rw [e] at h; exact h
+-- the same text is really cut into the token tree of `exE` (8 top-level tokens), and no
+-- blank at all is needed where no two words meet: `('a->'b)->'a`
+example : tokenize 99 " 'a list-> ('a-> 'b[int |bool] )->'b [int| bool]optional ".toList
+    = .ok exE.toks ∧ exE.toks.length = 8 := by decide +kernel
+example : render (fun _ => 0) (arrow (arrow (.var "a".toList) (.var "b".toList)) (.var "a".toList))
+      = "('a->'b)->'a".toList ∧
+    autoTypeText "('a->'b)->'a".toList
+      = .ok (TyO.arrow (TyO.arrow (TyO.poly "a".toList) (TyO.poly "b".toList)) (TyO.poly "a".toList)) := by
+  refine ⟨by decide +kernel, ?_⟩
+  have h := C15_type (fun _ => 0) (arrow (arrow (.var "a".toList) (.var "b".toList)) (.var "a".toList)) (by decide)
+  have e : render (fun _ => 0) (arrow (arrow (.var "a".toList) (.var "b".toList)) (.var "a".toList))
+      = "('a->'b)->'a".toList := by decide +kernel
+  rw [e] at h; exact h
 
 /-! ## programs
 
